@@ -2,7 +2,7 @@ CONSTANTS ScanDepModules = FALSE
           StrictUnknown = FALSE
           MaxMixed = 2
           MaxUniform = 4
-          Names = {"main", "app2", "my_app", "_x1", "a"}
+          Names = {"main", "app2", "my_app", "_x1", "a", "my-app", "x-1-y"}
           Layouts = {"flat", "nested"}
 SPECIFICATION Spec
 INVARIANTS Emit1
